@@ -3,7 +3,7 @@
 C18.R1, C20.R2."""
 from engine import rule
 from roles import Roles, SYS, sys_calls, SYSTEM_MUTATORS
-from common import WorkRoles, effects, call_effects, mutating, promoted_value
+from common import WorkRoles, effects, call_effects, mutating, promoted_value, remembered_entry_call
 from lib.mir import AnalysisError, fmt_origin
 
 HIST_GET = "history::RuleHistory::get_file_state_vec"
@@ -481,15 +481,17 @@ def c01_r3(ctx):
         if f.origins_of_operand(info_arg) != elem_v:
             ctx.viol((f.id, "resolve-info-arg"), "the FileInfo resolved is not this iteration's", c.where)
         gi = None
+        gi_vec = gi_idx = None
         for o in f.origins_of_operand(rem_arg):
-            if is_call(o, "blob::FileStateVec::get_info") and len(o) == 1:
-                gi = f.call_at[o[0][2]]
+            re_ = remembered_entry_call(ctx.P, o) if len(o) == 1 else None
+            if re_ is not None and re_[0] is f:
+                gi, gi_vec, gi_idx = re_[1], re_[2], re_[3]
         if gi is None:
             ctx.viol((f.id, "resolve-remembered-arg"), "the remembered state is not FileStateVec::get_info(i)", c.where)
             continue
-        if f.origins_of_operand(gi.args[1]) != elem_i:
-            ctx.viol((f.id, "resolve-index"), "target i is compared with remembered entry j != i (index is %s)" % sorted(map(fmt_origin, f.origins_of_operand(gi.args[1]))), gi.where)
-        vec = f.origins_of_operand(gi.args[0])
+        if f.origins_of_operand(gi_idx) != elem_i:
+            ctx.viol((f.id, "resolve-index"), "target i is compared with remembered entry j != i (index is %s)" % sorted(map(fmt_origin, f.origins_of_operand(gi_idx))), gi.where)
+        vec = {tuple(st for st in o if st != ("field", "infos")) for o in f.origins_of_operand(gi_vec)}
         if not all(o[0][0] == "param" and len(o) == 1 for o in vec):
             ctx.viol((f.id, "resolve-vector"), "the remembered vector is not the function's parameter", gi.where)
             continue
@@ -539,6 +541,11 @@ def c01_r6(ctx):
     # status fold on the command result
     fold = [c for c in f.calls if ctx.P.local_targets(c) and f.origins_of_operand(c.args[0]) == f._call_origins(ex, (), frozenset())] if True else []
     if len(fold) != 1:
+        exo = f._call_origins(ex, (), frozenset())
+        if any(lp["iter"] and all(o[:1] == next(iter(exo))[:1] for o in lp["iter"]) for lp in f.loops()):
+            # the results are walked right here (the fold written out in place): C04.R1 is the
+            # rule about how they are judged; the chain below needs the fold as one call
+            raise AnalysisError("idiom not recognised: %s examines the command's results in a loop of its own instead of handing them to the exit-status fold" % f.id)
         ctx.viol((f.id, "status-not-folded"), "the command's results are not passed to the exit-status fold", ex.where)
         return
     fold = fold[0]
@@ -619,7 +626,10 @@ def c01_r9(ctx):
     # returned vector built from the same payloads
     pushes = [p for p in f.calls_to("std::vec::Vec::<T, A>::push") if p.bb in lp["body"]]
     good = False
+    want_t = {x + (("field", "ticket"),) for x in payload}
     for p in pushes:
+        if f.origins_of_operand(p.args[1]) == want_t:
+            good = True             # the hash itself is collected
         for o in f.origins_of_operand(p.args[1]):
             if o[0][0] == "agg":
                 rv = f.blocks[o[0][2]]["stmts"][o[0][3]]["rv"]
@@ -728,6 +738,11 @@ def c04_r6(ctx):
             ctx.inst("%s::%s" % (adt, var), f.where(bb, idx))
             org = f.origins_of_operand(rv["ops"][0])
             good = org and all(is_call(o) and len(o) >= 4 and o[1] == ("variant", "Err") and o[-1] == ("field", 0) for o in org)
+            if not good and f.body.get("impl_trait") in ("std::convert::From", "std::convert::Into") and \
+                    org and all(o[0] == ("param", 1) and len(o) == 3 and o[1][0] == "variant" and o[2] == ("field", 0) for o in org):
+                # a conversion between error types (`impl From<Inner> for WorkError`, used by `?`):
+                # the path is the one the converted error carries
+                good = True
             if not good:
                 ctx.viol((f.id, "error-path-foreign", var), "%s does not carry the path reported by the failing lookup" % var, f.where(bb, idx))
             else:
